@@ -221,6 +221,20 @@ func currentTier() Tier {
 	return Tier{Name: n, Thorough: n == "thorough"}
 }
 
+// trackCurrent (VERIF_TRACK_CURRENT, set by the driver for the concurrency properties): the case
+// about to run is saved first, so that a Go *fatal error* raised by the code under test (unlock of an
+// unlocked mutex, all goroutines asleep, concurrent map access: not recoverable, the process dies)
+// still leaves a replayable case behind.
+func trackCurrent[C any](id string, c C) {
+	out := os.Getenv("VERIF_OUT")
+	if os.Getenv("VERIF_TRACK_CURRENT") == "" || out == "" {
+		return
+	}
+	raw, _ := json.Marshal(c)
+	b, _ := json.Marshal(replayFile{Property: id, Key: "fatal-error", Error: "the process died while running this case", Case: raw})
+	os.WriteFile(filepath.Join(out, fmt.Sprintf("current.%d.json", envInt("VERIF_SHARD", 0))), b, 0o644)
+}
+
 func safeRun[C any](run func(C) (Stats, error), c C) (st Stats, err error) {
 	defer func() {
 		if r := recover(); r != nil {
@@ -370,7 +384,7 @@ func (r *defRunner[C]) runAll(t *testing.T) {
 		}
 		extraMu.Unlock()
 		// generator health floors (rapid part only)
-		if !col.failed && col.p.RapidEvals >= 200 {
+		if !col.failed && col.p.RapidEvals >= 200 && os.Getenv("VERIF_RACE") == "" {
 			for cl, fl := range r.d.Floors {
 				got := float64(col.p.RapidClasses[cl]) / float64(col.p.RapidEvals)
 				if got < fl {
@@ -414,6 +428,9 @@ func (r *defRunner[C]) runAll(t *testing.T) {
 			}
 			col.p.Evaluations++
 			col.p.ReplayEvals++
+			if out := os.Getenv("VERIF_OUT"); out != "" && os.Getenv("VERIF_TRACK_CURRENT") != "" {
+				os.WriteFile(filepath.Join(out, fmt.Sprintf("current.%d.json", shard)), raw, 0o644)
+			}
 			if err := r.replay(raw); err != nil {
 				col.failed = true
 				col.p.Violations++
@@ -438,6 +455,7 @@ func (r *defRunner[C]) runAll(t *testing.T) {
 			if nshards > 1 && idx%nshards != shard {
 				return
 			}
+			trackCurrent(r.d.ID, c)
 			st, err := safeRun(r.d.Run, c)
 			if msg := r.record(col, c, st, err); msg != "" {
 				stop = true
@@ -455,6 +473,7 @@ func (r *defRunner[C]) runAll(t *testing.T) {
 	if r.d.Gen != nil && os.Getenv("VERIF_NO_RAPID") == "" {
 		rapid.Check(t, func(rt *rapid.T) {
 			c := r.d.Gen(rt, tier)
+			trackCurrent(r.d.ID, c)
 			st, err := safeRun(r.d.Run, c)
 			if msg := r.record(col, c, st, err); msg != "" {
 				rt.Fatalf("%s", msg)
